@@ -380,6 +380,9 @@ func (m *Machine) unop(fr *frame, instr *ssa.UnOp, x value) value {
 // loadElemRef reads base[idx] as an ite-chain.
 func (m *Machine) loadElemRef(p *elemRef) value {
 	n := len(p.base)
+	if !mergeable(p.elem) {
+		return load(p.elem, m.concretizeRef(p))
+	}
 	res := p.base[n-1]
 	for i := n - 2; i >= 0; i-- {
 		c := m.ts.Eq(p.idx, m.ts.BV(p.idx.w, uint64(i)))
@@ -388,7 +391,31 @@ func (m *Machine) loadElemRef(p *elemRef) value {
 	return res
 }
 
+// mergeable reports whether values of type T can be combined under a
+// symbolic condition (integers/bools and aggregates of them).
+func mergeable(T types.Type) bool {
+	switch u := T.Underlying().(type) {
+	case *types.Basic:
+		_, _, ok := intInfo(u)
+		return ok
+	case *types.Struct:
+		for i := 0; i < u.NumFields(); i++ {
+			if !mergeable(u.Field(i).Type()) {
+				return false
+			}
+		}
+		return true
+	case *types.Array:
+		return mergeable(u.Elem())
+	}
+	return false
+}
+
 func (m *Machine) storeElemRef(p *elemRef, v value) {
+	if !mergeable(p.elem) {
+		store(p.elem, m.concretizeRef(p), v)
+		return
+	}
 	for i := range p.base {
 		c := m.ts.Eq(p.idx, m.ts.BV(p.idx.w, uint64(i)))
 		p.base[i] = m.iteValue(p.elem, c, v, p.base[i])
